@@ -41,8 +41,15 @@ JudgeW(e) ==
        /\ (IF EncOn(e.r) /\ e.r.vin /\ e.mutated THEN PrintT(<<"STAT2", "C14_tampered", 1, 1>>) ELSE TRUE)
        /\ (IF EncOn(e.s) /\ e.s.vout THEN PrintT(<<"STAT2", "C15_enforced", 1, 1>>) ELSE TRUE)
 
+\* C16: adding and then removing the label header returns the original payload and label
+JudgeCodec(e) ==
+  /\ Report("VERDICT", "C16_Codec", e, e.ok)
+  /\ PrintT(<<"STAT2", "C16_codec_" \o e.kind, 1, 1>>)
+
 TInit == l = 1
-TStep == l <= Len(Trace) /\ JudgeW(Trace[l]) /\ l' = l + 1
+TStep == /\ l <= Len(Trace)
+         /\ (IF Trace[l].ev = "Codec" THEN JudgeCodec(Trace[l]) ELSE JudgeW(Trace[l]))
+         /\ l' = l + 1
 TDone == l = Len(Trace) + 1 /\ PrintT(<<"DONE", Len(Trace)>>) /\ l' = l + 1
 TSpec == TInit /\ [][TStep \/ TDone]_l
 =============================================================================
